@@ -35,6 +35,9 @@ def setup(ctx):
             if core.in_monitor():
                 return r
             with core.monitor_scope():
+                if domain not in ("w", "f", "t"):        # a spelling the statement does not name ('W', ' t '): whatever it means, the property is silent
+                    ctx.bin("call.other_domain_spelling", repr(domain))
+                    return r
                 ctx.call("call.post")
                 f = fft if domain in ("w", "f") else ifft
                 sh = (lambda z: fftshift(z, axes=-1)) if domain in ("w", "f") else (lambda z: ifftshift(z, axes=-1))
@@ -253,9 +256,15 @@ def w_gv_axes(ctx, rng, i):
 
 def w_errors(ctx, rng, i):
     x = make(rng, ["el", "opt1", "opt2"][i % 3], 8, "complex", True)
+    # The statement has no rejection clause: what happens for other `domain` / `by` strings is observed (coverage bins), not judged —
+    # a library that starts accepting 'W' or ' t ' changes nothing the property describes (false alarm on refactoring R13-C02).
     with core.quiet():
-        ctx.raises("domain.error", (ValueError, TypeError), x, str(rng.choice(["x", "time", "", "W", "T"])))
-        ctx.raises("power.error", ValueError, x.power, "both")
+        for what, fn, arg in (("domain", x, str(rng.choice(["x", "time", "", "W", "T"]))), ("power", x.power, "both")):
+            try:
+                fn(arg)
+                ctx.bin(f"{what}.other_string", f"{arg!r} accepted")
+            except (ValueError, TypeError, KeyError) as e:
+                ctx.bin(f"{what}.other_string", f"{arg!r} -> {type(e).__name__}")
     ctx.case(("err", i % 3))
 
 
